@@ -142,30 +142,42 @@ SCALES = [2.5, 0.1, -3.0, 1000.0, 0.001, 1.0, 7, 0.0, -1.0]
 
 
 def gen_program(rng, n, kind='valid'):
-    """A program on the SAME PoseTransform objects (ids 0..n-1 = fresh copies of the case's poses; every inverse /
-    compose appends its result as a new id).  'laws' re-checks the group laws on an object as it is at that moment."""
-    prog, size = [], n
+    """A program on the SAME PoseTransform objects.  Handles 0..n-1 are fresh copies of the case's poses, n is
+    PoseTransform() and n+1 is PoseTransform([1,0,0,0],[0,0,0]) (exact identities); every inverse / compose appends
+    its result as a new handle.  'laws' re-checks the group laws on an object as it is at that moment."""
+    prog, size = [], n + 2
+    id1, id2 = n, n + 1
 
     def pick():
         return rng.randrange(size)
-    template = rng.choice(['inv_rescale', 'rescale_inverse', 'random', 'random', 'traj'])
+
+    def pick_pose():
+        return rng.randrange(n)
+    template = rng.choice(['inv_rescale', 'rescale_inverse', 'random', 'identity_chain', 'identity_chain', 'traj'])
     if n == 0:
         return []
     if template == 'inv_rescale':          # invert, rescale the pose, invert again
-        i = pick()
+        i = pick_pose()
         prog += [['inverse', i], ['rescale', i, rng.choice(SCALES)], ['laws', i], ['inverse', i]]
         size += 2
     elif template == 'rescale_inverse':    # invert, rescale the INVERSE in place, invert it back (kapture_import_4seasons)
-        i = pick()
+        i = pick_pose()
         prog += [['inverse', i], ['rescale', size, rng.choice(SCALES)], ['laws', size], ['inverse', size], ['laws', i]]
         size += 2
     elif template == 'traj':               # the same through Trajectories.inverse / trajectory_rescale_inplace
         prog += [['traj', rng.choice([s for s in SCALES if s != 0.0])]]
         size += 2 * n
         prog += [['laws', pick()]]
-    for _ in range(rng.choice([1, 2, 3, 4]) if template != 'random' else rng.choice([3, 4, 5, 6])):
-        op = rng.choice(['inverse', 'inverse', 'rescale', 'rescale', 'compose', 'laws', 'laws'])
-        if size >= 9 and op in ('inverse', 'compose'):
+    elif template == 'identity_chain':     # chains with exact identity members at every position; then the RESULT is
+        for _ in range(rng.choice([1, 2, 3])):   # rescaled in place: no operand may change (results are fresh objects)
+            a, b = pick_pose(), pick_pose()
+            chain = rng.choice([[a, id1], [id2, a], [id1, a, id2], [id1, id2, a], [a, id1, id2], [a, id2, b], [id1, id2],
+                                [id1, a, id2, b], [a], [id1]])
+            prog += [['compose', chain], ['rescale', size, rng.choice([s for s in SCALES if s != 1.0])], ['laws', a]]
+            size += 1
+    for _ in range(rng.choice([1, 2, 3]) if template != 'random' else rng.choice([3, 4, 5, 6])):
+        op = rng.choice(['inverse', 'inverse', 'rescale', 'rescale', 'compose', 'compose', 'laws', 'laws'])
+        if size >= 11 and op in ('inverse', 'compose'):
             op = 'laws'
         if op == 'inverse':
             prog.append(['inverse', pick()])
@@ -173,11 +185,13 @@ def gen_program(rng, n, kind='valid'):
         elif op == 'rescale':
             prog.append(['rescale', pick(), rng.choice(SCALES)])
         elif op == 'compose':
-            prog.append(['compose', [pick() for _ in range(rng.choice([2, 2, 3]))]])
+            prog.append(['compose', [pick() for _ in range(rng.choice([1, 2, 2, 3]))]])
             size += 1
+            if rng.random() < 0.5:          # in-place operation on the result
+                prog.append(['rescale', size - 1, rng.choice(SCALES)])
         else:
             prog.append(['laws', pick()])
-    prog.append(['laws', pick()])
+    prog.append(['laws', pick_pose()])
     return prog
 
 
@@ -359,21 +373,41 @@ def _history(R, case, X):
     """Run case['program'] on fresh PoseTransform objects kept alive for the whole program (the pool; results are
     appended).  Returns the trace for MPose.CHistory and the law records for the oracle."""
     import kapture
-    pool = [R.mk(s) for s in case['poses']]
-    n0 = len(pool)
-    init = [_spec_of(o) for o in pool]
+    n0 = len(case['poses'])
+    # the case's poses, then two exact identities: the default constructor and an explicit one
+    pool = [R.mk(s) for s in case['poses']] + [kapture.PoseTransform(), kapture.PoseTransform(r=[1.0, 0.0, 0.0, 0.0], t=[0.0, 0.0, 0.0])]
     steps, laws = [], []
     X64 = X[:, 0:3].astype(float) if X.shape[1] in (3, 6) else np.zeros((0, 3))
-    size = n0                               # a program must only name objects that exist (else: harness error)
+    size = n0 + 2                           # a program must only name handles that exist (else: harness error)
+    alias = list(range(size))               # documented aliasing only: compose([p]) returns p itself
     for st in case.get('program', []):
         ids = st[1] if st[0] == 'compose' else ([] if st[0] == 'traj' else [st[1]])
-        if any(not 0 <= i < size for i in ids) or (st[0] == 'compose' and len(ids) < 2):
+        if any(not 0 <= i < size for i in ids) or (st[0] == 'compose' and len(ids) < 1):
             raise ValueError('invalid program for this pool')
+        if st[0] == 'compose':
+            alias.append(alias[ids[0]] if len(ids) == 1 else size)
+        elif st[0] == 'inverse':
+            alias.append(size)
+        elif st[0] == 'traj':
+            alias.extend(range(size, size + 2 * n0))
         size += {'inverse': 1, 'compose': 1, 'traj': 2 * n0}.get(st[0], 0)
+
+    def same_object(a, b):
+        """the same Python object, or two objects sharing a mutable part (translation buffer, quaternion object)"""
+        if a is b:
+            return True
+        if a.t is not None and b.t is not None and np.shares_memory(a.t, b.t):
+            return True
+        return a.r is not None and a.r is b.r
 
     def snapshot():
         specs = [_spec_of(o) for o in pool]
-        return specs if all(_finite_pose(sp) for sp in specs) else None
+        if not all(_finite_pose(sp) for sp in specs):
+            return None
+        canon = [min(j for j in range(k + 1) if same_object(pool[j], pool[k])) for k in range(len(pool))]
+        return [{'canon': c, **sp} for c, sp in zip(canon, specs)]
+
+    init = snapshot()
 
     for st in case.get('program', []):
         op = st[0]
@@ -389,7 +423,7 @@ def _history(R, case, X):
                 pool.append(kapture.PoseTransform.compose([pool[i] for i in st[1]]))
             elif op == 'rescale':
                 prim = [['rescale', st[1], st[2]]]
-                allowed = {st[1]}
+                allowed = {k for k in range(len(pool)) if alias[k] == alias[st[1]]}
                 pool[st[1]].rescale(st[2])
             elif op == 'traj':              # Trajectories.inverse(); trajectory_rescale_inplace(); Trajectories.inverse()
                 base = len(pool)
@@ -429,7 +463,8 @@ def _history(R, case, X):
             laws.append({'id': None, 'raised': f'{op}: {type(ex).__name__}'})
         after = [_bits(x) for x in pool[:len(before)]]
         if any(a != b for i, (a, b) in enumerate(zip(after, before)) if i not in allowed):
-            R.mutations.append(op + ' (changed another live object)')
+            R.mutations.append('rescale of a different pose (a returned pose is, or shares state with, an operand)'
+                               if op in ('rescale', 'traj') else op + ' (changed another live pose)')
         snap = snapshot() if ok else None
         steps.append({'ops': prim, 'store': snap})
         if snap is None:
@@ -676,10 +711,12 @@ def encode(case, obs):
                 if o[0] == 'compose':
                     return 'HCompose %s' % kv.clist('%d%%nat' % i for i in o[1])
                 return 'HRescale %d%%nat %s' % (o[1], _cf(o[2]))
+            def cstore(store):
+                return kv.clist('(%d%%nat, %s)' % (x['canon'], _copose(x)) for x in store)
             steps = kv.clist(kv.cpair(kv.clist(hop(o) for o in st['ops']),
-                                      'None' if st['store'] is None else '(Some %s)' % kv.clist(_copose(x) for x in st['store']))
+                                      'None' if st['store'] is None else '(Some %s)' % cstore(st['store']))
                              for st in c['steps'])
-            terms.append('CHistory %s %s' % (kv.clist(_copose(x) for x in c['init']), steps))
+            terms.append('CHistory %s %s' % (cstore(c['init'] or []), steps))
         elif c['op'] == 'chain':
             terms.append('CChain %s %s' % (kv.clist(_copose(s) for s in c['in']),
                                            kv.clist(_cout_pose(o) for o in c['outs'])))
